@@ -1026,13 +1026,13 @@ class Context(MetadataContextMixin, object):
         if description is not None:
             self.set_description(description)
 
-        if cache is None:
-            if input_value_specified:
-                cache=NoCache()
-                self.debug(f"Input value specified, cache {repr(cache)}")
-            else:
-                cache = self.cache()
-                self.debug(f"Default cache {repr(cache)}")
+        if input_value is not None or input_value_specified:
+            # A result computed from an injected input value must never be cached under the query
+            cache=NoCache()
+            self.debug(f"Input value specified, cache {repr(cache)}")
+        elif cache is None:
+            cache = self.cache()
+            self.debug(f"Default cache {repr(cache)}")
 
         self.debug(f"Using cache {repr(cache)}")
         self.debug(f"Try cache {query}")
